@@ -2,11 +2,16 @@
    (1) the function GENERATED from the C text (LeafGen.v, semantics LeafSem.v) evaluates to the value the compiled C
        function returned — this validates the translator and the semantics against the real compiler;
    (2) the value satisfies the hand-written specification used by the other models (modulo_ternary, modulo_nonneg, the
-       hash projection's range / congruence, the element encoding).  No proofs here. *)
+       hash projection's range / congruence, the element encoding, gcd / Bezout coefficients of gcdExt).  No proofs here. *)
 From Cmr Require Import Base PivotModel LeafSem LeafGen.
 Local Open Scope Z_scope.
 
 Definition HR : Z := 9223372036854775807 / 8.
+
+(* fuel of the translated loop of gcdExt; GcdProofs.v: it suffices for all arguments except INT64_MIN *)
+Definition gcd_fuel : nat := 200.
+
+Definition sym64 (x : Z) : bool := (-9223372036854775807 <=? x) && (x <=? 9223372036854775807).
 
 Definition leaf_gen (fn : Z) (args : list Z) : option (option Z) :=
   match fn, args with
@@ -21,6 +26,10 @@ Definition leaf_gen (fn : Z) (args : list Z) : option (option Z) :=
   | 8, [e] => Some (c_CMRelementIsColumn e)
   | 9, [e] => Some (c_CMRelementToColumnIndex e)
   | 10, [e] => Some (c_CMRelementTranspose e)
+  (* gcdExt(a, b, &s, &t) of linear_algebra.c, one record per component: 11 = return value, 12 = *ps, 13 = *pt *)
+  | 11, [a; b] => Some (match c_gcdExt gcd_fuel a b with Some (g, _, _) => Some g | None => None end)
+  | 12, [a; b] => Some (match c_gcdExt gcd_fuel a b with Some (_, s, _) => Some s | None => None end)
+  | 13, [a; b] => Some (match c_gcdExt gcd_fuel a b with Some (_, _, t) => Some t | None => None end)
   | _, _ => None
   end.
 
@@ -37,6 +46,20 @@ Definition leaf_spec (fn : Z) (args : list Z) (r : Z) : bool :=
   | 8, [e] => r =? (if 0 <? e then 1 else 0)
   | 9, [e] => r =? e - 1
   | 10, [e] => r =? - e
+  | 11, [a; b] => r =? Z.gcd a b
+  (* *ps: Bezout together with the generated *pt; in range; s = 0 exactly if b <> 0 and b | a *)
+  | 12, [a; b] => match c_gcdExt gcd_fuel a b with
+                  | Some (_, _, t) => (r * a + t * b =? Z.gcd a b) && sym64 r &&
+                                      Bool.eqb (r =? 0) (negb (b =? 0) && (a mod b =? 0))
+                  | None => false
+                  end
+  (* *pt: Bezout together with the generated *ps; in range; t = 0 exactly if b = 0 or a is a proper divisor of b
+     (the documentation of gcdExt claims t <> 0 — that is wrong, e.g. gcdExt(2,4) gives s = 1, t = 0) *)
+  | 13, [a; b] => match c_gcdExt gcd_fuel a b with
+                  | Some (_, s, _) => (s * a + r * b =? Z.gcd a b) && sym64 r &&
+                                      Bool.eqb (r =? 0) ((b =? 0) || (negb (a =? 0) && (Z.abs a <? Z.abs b) && (b mod a =? 0)))
+                  | None => false
+                  end
   | _, _ => false
   end.
 
